@@ -11,8 +11,10 @@
 //!   [3, lk, lo, hk, hi]            range; bound kind 0 = Included, 1 = Excluded, 2 = Unbounded
 //!                                                  -> [n, pn1, size1, ..., pnn, sizen]
 //!   [4]                            mem::take + into_values -> [n, size1, ..., sizen]
-//!   [5, d]                         values_mut: size += d on every entry (caller keeps sizes nonzero
-//!                                   and below 2^16)  -> [n]
+//!   [5, d]                         values_mut: size += d on every entry whose size is nonzero
+//!                                   (the real user, `maybe_queue_probe`, never changes whether a
+//!                                   packet counts as in flight; caller keeps sizes below 2^16)
+//!                                                  -> [n] (entries visited)
 //! A panic (debug assertion on a non-increasing insert) is reported by the harness as PANIC.
 #![allow(missing_docs, dead_code, unused_imports, unreachable_pub, clippy::all)]
 use super::{Ops, Outs};
@@ -89,7 +91,9 @@ fn sent_packets(ops: &Ops) -> Outs {
             5 => {
                 let mut n = 0;
                 for v in m.values_mut() {
-                    v.size += op[1] as u16;
+                    if v.size != 0 {
+                        v.size += op[1] as u16;
+                    }
                     n += 1;
                 }
                 vec![n]
